@@ -346,8 +346,20 @@ sx_parse_list(const char *s, const size_t n, const size_t i)
         rv.status = SXS_UNEXPECTED_END;
         return rv;
     }
-    struct sx_parse_result carres = sx_parse_(s, n, i);
-    if (result_is_empty_listp(&carres) || result_is_error(&carres)) {
+    const size_t j = skip_ws(s, n, i);
+    if (j >= n) {
+        struct sx_parse_result rv = SX_PARSE_RESULT_INIT;
+        rv.position = j;
+        rv.status = SXS_UNEXPECTED_END;
+        return rv;
+    }
+    if (s[j] == ')') {
+        /* End of this list. A nested "()" is an element (handled by
+         * sx_parse_() below) and must not be mistaken for it. */
+        return sx_parse_token(s, n, j);
+    }
+    struct sx_parse_result carres = sx_parse_(s, n, j);
+    if (result_is_error(&carres)) {
         return carres;
     }
 
